@@ -151,8 +151,20 @@ def guarded_stores(fnode, loop_index: int, a: str, b: str, swap: bool = False):
             tgt, val, tag = s.target, s.value, type(s.op).__name__ + " "
         else:
             continue
-        regs, rest = sign_regions(literals(N.conj(astx.path_condition(g, s, pm))))
-        out.append((astx.u(tgt.value), tgt.slice, val, regs, rest, N, tag, s))
+        pc = astx.path_condition(g, s, pm)
+        # a key chosen by a case split just before (`k = (a, b) if x > y else (b, a)`; `pairs[k] = ...`) is one store per case
+        cases = None
+        if isinstance(tgt.slice, ast.Name):
+            cs = astx.value_cases(g, tgt.slice.id, s, pm)
+            if cs and len(cs) > 1:
+                cases = cs
+        if cases is None:
+            regs, rest = sign_regions(literals(N.conj(pc)))
+            out.append((astx.u(tgt.value), tgt.slice, val, regs, rest, N, tag, s))
+        else:
+            for conds, kv in cases:
+                regs, rest = sign_regions(literals(N.conj(list(pc) + list(conds))))
+                out.append((astx.u(tgt.value), kv, val, regs, rest, N, tag, s))
     return out
 
 
